@@ -22,16 +22,16 @@ import (
 )
 
 type BootCase struct {
-	ID          string          `json:"id"`
-	Listeners   []int           `json:"listeners"`
-	Program     [][]interface{} `json:"program"`
-	MaxIncoming int             `json:"max_incoming"`
-	Shutdown    bool            `json:"shutdown"`
-	Schedule    [][]string      `json:"schedule"` // [kind, proc]: step / incoming
-	Random      *RandomSpec     `json:"random"`
-	MaxSteps    int             `json:"max_steps"`
-	MaxChans    int             `json:"max_chans"`
-	ActivePanics bool           `json:"active_panics"` // a user handler panics in HandleActive, the exception handler keeps the connection
+	ID           string          `json:"id"`
+	Listeners    []int           `json:"listeners"`
+	Program      [][]interface{} `json:"program"`
+	MaxIncoming  int             `json:"max_incoming"`
+	Shutdown     bool            `json:"shutdown"`
+	Schedule     [][]string      `json:"schedule"` // [kind, proc]: step / incoming
+	Random       *RandomSpec     `json:"random"`
+	MaxSteps     int             `json:"max_steps"`
+	MaxChans     int             `json:"max_chans"`
+	ActivePanics bool            `json:"active_panics"` // a user handler panics in HandleActive, the exception handler keeps the connection
 }
 
 type BootChSt struct {
@@ -59,15 +59,15 @@ type BootEvent struct {
 }
 
 type BootResult struct {
-	ID         string         `json:"id"`
-	Events     []BootEvent    `json:"events"`
-	Steps      int            `json:"steps"`
-	Diverged   int            `json:"diverged"`
-	Fails      []Fail         `json:"fails"`
-	HarnessErr string         `json:"harness_err,omitempty"`
-	Sched      [][]string     `json:"sched"`
+	ID         string            `json:"id"`
+	Events     []BootEvent       `json:"events"`
+	Steps      int               `json:"steps"`
+	Diverged   int               `json:"diverged"`
+	Fails      []Fail            `json:"fails"`
+	HarnessErr string            `json:"harness_err,omitempty"`
+	Sched      [][]string        `json:"sched"`
 	Final      map[string]string `json:"final"`
-	Actions    map[string]int `json:"actions"`
+	Actions    map[string]int    `json:"actions"`
 }
 
 type bootAcceptor struct {
